@@ -32,18 +32,41 @@ def main():
     if want:
         items = [it for it in items if any(it[0].startswith(w) or it[1] == w for w in want)]
     results = []
-    for name, prop, patch in items:
+    jobs = int(os.environ.get("SELFTEST_JOBS", "1"))
+    if jobs > 1:
+        import concurrent.futures as cf
+        with cf.ThreadPoolExecutor(max_workers=jobs) as ex:
+            futs = [ex.submit(one, it, None) for it in items]
+            for f in futs:
+                results.append(f.result())
+    else:
+        for it in items:
+            results.append(one(it, None))
+    out = os.path.join(HERE, "selftest_results.json")
+    old = []
+    if os.path.exists(out) and want:
+        old = [r for r in json.load(open(out)) if r["name"] not in {x["name"] for x in results} and r["name"] in all_names]
+    json.dump(old + results, open(out, "w"), indent=1)
+    return 0
+
+
+def one(item, _unused):
+    import threading
+    name, prop, patch = item
+    WT = "/tmp/selftest_wt_%d" % (threading.get_ident() % 100000)
+    BL = "/tmp/selftest_bl_%d" % (threading.get_ident() % 100000)
+    if True:
         sh("git -C /repo worktree remove --force %s" % WT)
         sh("rm -rf %s" % WT)
         r = sh("git -C /repo worktree add -q --detach %s HEAD" % WT)
         if r.returncode != 0:
             print("worktree failed", r.stderr)
-            return 2
+            return {"name": name, "property": prop, "applies": False}
         t0 = time.time()
         ap = sh("git -C %s apply %s" % (WT, patch))
         rec = {"name": name, "property": prop, "applies": ap.returncode == 0}
         if ap.returncode == 0:
-            tb = sh("QENTEM_REPO=%s VERIF_BASELINE_DIR=/tmp/selftest_bl VERIF_CTEST_TIMEOUT=120 %s/tools/baseline_off.sh" % (WT, HERE))
+            tb = sh("QENTEM_REPO=%s VERIF_BASELINE_DIR=%s VERIF_CTEST_TIMEOUT=120 %s/tools/baseline_off.sh" % (WT, BL, HERE))
             rec["repo_tests_pass"] = "100% tests passed" in tb.stdout
             env = dict(os.environ, QENTEM_REPO=WT, VERIF_SEED=os.environ.get("VERIF_SEED", "1"),
                        VERIF_EVIDENCE_DIR=os.path.join(HERE, "build", "evidence-selftest"))
@@ -52,18 +75,12 @@ def main():
             keys = re.findall(r"^\s+key=(\S+)", ck.stdout, re.M)
             rec["violation_keys"] = keys[:6]
             rec["detected"] = ck.returncode == 1 and "VIOLATION property=%s" % prop in ck.stdout
-            sh("rm -rf /tmp/selftest_bl")
+            sh("rm -rf %s" % BL)
         rec["seconds"] = round(time.time() - t0, 1)
-        results.append(rec)
         print("%-38s %-4s tests_pass=%-5s detected=%-5s exit=%s  %s" % (name, prop, rec.get("repo_tests_pass"), rec.get("detected"), rec.get("check_exit"), ",".join(rec.get("violation_keys", []))[:110]), flush=True)
         sh("git -C /repo worktree remove --force %s" % WT)
         sh("rm -rf %s" % WT)
-    out = os.path.join(HERE, "selftest_results.json")
-    old = []
-    if os.path.exists(out) and want:
-        old = [r for r in json.load(open(out)) if r["name"] not in {x["name"] for x in results} and r["name"] in all_names]
-    json.dump(old + results, open(out, "w"), indent=1)
-    return 0
+        return rec
 
 
 if __name__ == "__main__":
